@@ -37,6 +37,12 @@ def gen_program(rng, arch, nstmt, vocab, incbin):
                         items.append('"%s"' % w); bs += w.encode()
                     elif rng.random() < 0.25:
                         items.append("< @here"); bs.append((here + len(bs)) & 0xFF)
+                    elif rng.random() < 0.3:
+                        # a byte only defined at the end of the file: placed as a placeholder, patched at link time
+                        v = rng.randrange(256)
+                        bname = "byte%d_%d" % (len(lines), len(items))
+                        late.append("@defn %s, %d" % (bname, v if rng.random() < 0.6 else v + 256 * rng.randrange(1, 200)))
+                        items.append(bname if late[-1].endswith(", %d" % v) else "< " + bname); bs.append(v)
                     else:
                         v = rng.randrange(256)
                         items.append(str(v) if rng.random() < 0.5 else "$%x" % v); bs.append(v)
@@ -87,8 +93,23 @@ def gen_program(rng, arch, nstmt, vocab, incbin):
         elif r < 0.78 and code:
             name = rng.choice(list(incbin))
             lines.append('@incbin "%s"' % name); out += incbin[name]; here += len(incbin[name])
+        elif r < 0.83 and code:
+            # a relative branch to the label that directly follows it (distance 0), the target not yet known
+            mn, opc = rng.choice({"z80": [("djnz", 0x10), ("jr", 0x18), ("jr nz,", 0x20), ("jr c,", 0x38)],
+                                  "sm83": [("jr", 0x18), ("jr z,", 0x28), ("jr nc,", 0x30)],
+                                  "6502": [("bne", 0xD0), ("beq", 0xF0), ("bcc", 0x90), ("bmi", 0x30)]}[arch])
+            nlab += 1
+            name = "lab%d" % nlab
+            lines.append(" %s %s" % (mn, name)); out += bytes([opc, 0]); here += 2
+            lines.append(name + ":"); labels[name] = here
         elif code:
             form, bs = rng.choice(vocab)
+            m = asmk.NUMRE.search(form)
+            if m and rng.random() < 0.3 and arch != "6502" and form.split()[0] not in ("bit", "res", "set", "rst", "im"):
+                # the operand is a constant defined at the end of the file
+                oname = "opnd%d" % len(lines)
+                late.append("@defn %s, %s" % (oname, m.group(0)))
+                form = form[:m.start()] + oname + form[m.end():]
             lines.append(" " + form); out += bs; here += len(bs)
         else:
             lines.append("; just a comment")
